@@ -208,3 +208,21 @@ Proof.
   - intros commit s3 H3. destruct (recreate_continues s1 commit s3 Hc H3) as [g [A [B [C [D F]]]]].
     split; [lia|]. exists g. repeat split; try assumption; lia.
 Qed.
+
+(* the log verifies the database: after every (well-formed) history the newest file ends at the node's position and its
+   post-apply checksum is the from-scratch checksum of the logical database - what a replica checks a file against is the
+   database itself, not a number carried along *)
+Theorem g_history_newest_file lock gs s' v' f rest :
+  1 <= lock -> wf_gsteps (init lock) gs -> run_gsteps (init lock) (fun _ => 0) gs = Some (s', v') ->
+  rev (ltxdir s') = f :: rest ->
+  l_max f = txid s' /\
+  (wal_mode s' = false -> txid s' <> 0 -> l_post f = scratch (fun p => if p =? lock then 0 else file_h s' p) (pageN s')) /\
+  (wal_mode s' = true -> l_post f = scratch (fun p => if p =? lock then 0 else v' p) (pageN s')).
+Proof.
+  intros Hl Hwf Hrun Hr.
+  destruct (g_history_checksum lock gs s' v' Hl Hwf Hrun) as [_ [HJ HW]].
+  destruct (g_history_chain lock gs s' v' Hrun) as [_ He]. unfold ends_at in He. rewrite Hr in He. destruct He as [A B].
+  split; [exact A|]. split.
+  - intros Hm Ht. rewrite B. exact (proj1 (HJ Hm) Ht).
+  - intros Hm. rewrite B. exact (proj1 (HW Hm)).
+Qed.
